@@ -179,6 +179,25 @@ pub fn run(ctx: &Ctx) -> Report {
             families.push((3, sets, ["n3_unit_x1_plus_4_clauses", "n3_unit_x2_plus_4_clauses", "n3_unit_x3_plus_4_clauses"][u]));
         }
     }
+    // four variables, clauses over exactly two variables each (24 types): independent components,
+    // component-cache hits between branches
+    {
+        let t4 = clause_types(4);
+        let bin: Vec<usize> = (0..256).filter(|&i| t4[i].len() == 2 && t4[i][0].0 != t4[i][1].0).collect();
+        let mut sets: Vec<Vec<usize>> = multisets(bin.len(), 2).into_iter().filter(|m| m.len() == 2).map(|m| m.into_iter().map(|i| bin[i]).collect()).collect();
+        let three: Vec<Vec<usize>> = multisets(bin.len(), 3).into_iter().filter(|m| m.len() == 3).map(|m| m.into_iter().map(|i| bin[i]).collect()).collect();
+        sets.extend(three.into_iter().step_by(ctx.tier.pick(29, 1)));
+        sets.retain(|s| {
+            let mut m = 0u32;
+            for &i in s.iter() {
+                for l in t4[i].iter() {
+                    m |= 1 << l.0;
+                }
+            }
+            m == 0b1111
+        });
+        families.push((4, sets, "n4_binary_clauses_covering_all_four_variables"));
+    }
     for (n, mut sets, name) in families {
         let types = clause_types(n);
         ctx.rotate(&mut sets);
